@@ -76,6 +76,8 @@ def nested_stage(chk, pid, tier, seed, names, check_c07):
     bad = [r for r in res if r["diff"]]
     chk.ob("nested units (stop groups, initial/fixed stops): %d histories identical to Model/Units.v" % n, not bad and st[0] == 0 and st[2] == 0,
            str(bad[0]["diff"])[:500] if bad else (st[1] + st[3])[-300:])
+    if bad and chk.mismatch is None:
+        chk.mismatch = {"diff": bad[0]["diff"], "case": G.case_lines(bad[0]["case"]["model"], bad[0]["case"]["ops"])}
     nviol = 0
     for r in res:
         m = r["case"]["model"]
@@ -170,6 +172,8 @@ def run(pid, tier, seed, oracle_names, title, feats=None, check_c07=False, extra
     rejected = sum(1 for r in res for l in r["impl"] if l.endswith("result notdone"))
     chk.ob("engine correspondence: %d histories / %d operations (%d rejected and rolled back) identical snapshots" % (nh, nsteps, rejected),
            not bad, str(bad[0]["diff"])[:500] if bad else "")
+    if bad:
+        chk.mismatch = {"diff": bad[0]["diff"], "case": G.case_lines(bad[0]["case"]["model"], bad[0]["case"]["ops"])}
     # oracle on the implementation's snapshots
     nviol = 0
     for r in res:
